@@ -216,8 +216,11 @@ CHECKS = {
             "if deserialising bits succeeds and verifies, serialising the resulting description with the same program returns the same results and writes "
             "exactly the consumed bits (incl. reads past bounded-block ends, block and byte-align padding), and re-deserialising gives a syntactically equal "
             "description. Five real vc2.py descriptions (parse_info+padding/aux, sequence_header, fragment_header, hq_slice, ld_slice with clamped lengths) are "
-            "written as programs, proved conv_ok and compared with the real functions each run. PARTIAL: the composition into parse_stream (stream loop, "
-            "picture_parse, _state computed values) is covered by the differential des->ser->des run on 1300+ parseable byte strings.",
+            "written as programs, proved conv_ok and compared with the real functions each run. Stream level (C06_stream_des_ser): the parse_stream/parse_sequence loops over ANY conv_ok data-unit bodies reproduce the "
+            "input bits and re-deserialise to the same context (fuel exhaustion excluded by the statement); instantiated with sequence header, padding and "
+            "auxiliary bodies. PARTIAL: picture/fragment bodies as functions of the decoder state set by the preceding sequence header enter the stream "
+            "theorem as parameters and `_state` is modelled as a constant; that part is covered by the differential des->ser->des run on 1300+ parseable byte "
+            "strings (encoder streams, mutants, hand-packed huge-value streams).",
             C_TIE + "Slice coefficient counts and slice_bytes passed to the slice programs come from the real slice_sizes functions.",
             "Coq proof of the des->ser converse by a path-wise 'future description' invariant + differential run on real streams and mutants",
             "DESIGN.md 3 C06"),
